@@ -15,7 +15,7 @@ var ErrIO = errors.New("simpipe: input/output error (injected)")
 type Spec struct {
 	Chunks   []int  `json:"chunks,omitempty"`    // sizes of successive reads, cycled; empty = whatever is asked
 	CutAt    int    `json:"cut_at"`              // stream ends at this offset; <0 = at its natural end
-	CutKind  string `json:"cut_kind,omitempty"`  // eof (default) | eio
+	CutKind  string `json:"cut_kind,omitempty"`  // eof (default) | eio | ueof | closed
 	WithData bool   `json:"with_data,omitempty"` // last data and the error arrive in the same Read
 }
 
@@ -44,11 +44,20 @@ func New(data []byte, spec Spec) *Reader {
 }
 
 func (r *Reader) final() error {
-	if r.spec.CutKind == "eio" {
+	switch r.spec.CutKind {
+	case "eio":
 		return ErrIO
+	case "ueof": // what gzip, LimitReader-with-check, http bodies ... return for a short stream
+		return io.ErrUnexpectedEOF
+	case "closed":
+		return io.ErrClosedPipe
 	}
 	return io.EOF
 }
+
+// IsErrorKind reports whether a cut kind stands for a reader failure (as
+// opposed to a plain end of stream).
+func IsErrorKind(kind string) bool { return kind == "eio" || kind == "ueof" || kind == "closed" }
 
 // Read implements io.Reader. It never returns (0, nil) for a non-empty p.
 func (r *Reader) Read(p []byte) (int, error) {
